@@ -1,26 +1,28 @@
 #!/usr/bin/env python3
 """Re-runs every seeded change against the current checks and records the outcome
-in its meta.json and in seeded/RESULTS.md. /repo must be clean."""
-import json, os, subprocess, glob, sys
+in its meta.json and in seeded/RESULTS.md. Each seed is applied to a scratch copy of
+/repo (removed afterwards), so /repo itself is never touched; WORKERS seeds run in
+parallel. usage: reseed.py [name-substring ...] (with a filter RESULTS.md is not rewritten)"""
+import json, os, subprocess, glob, sys, tempfile, shutil
+from concurrent.futures import ThreadPoolExecutor
 os.chdir('/verif')
-rows = []
 only = sys.argv[1:]
-for d in sorted(glob.glob('seeded/*/')):
+WORKERS = int(os.environ.get('RESEED_WORKERS', '3'))
+
+def run(d):
     name = d.split('/')[1]
-    if only and not any(o in name for o in only):
-        continue
     meta = json.load(open(d + 'meta.json'))
     prop = meta['property']
     patch = os.path.abspath(d + 'patch.diff')
-    if subprocess.run(['git', '-C', '/repo', 'status', '--porcelain', '--untracked-files=no'], capture_output=True, text=True).stdout.strip():
-        print('repo not clean'); sys.exit(2)
-    if subprocess.run(['git', '-C', '/repo', 'apply', '--check', patch]).returncode != 0:
-        rows.append((name, prop, 'patch does not apply any more', '')); continue
-    subprocess.run(['git', '-C', '/repo', 'apply', patch], check=True)
+    scratch = tempfile.mkdtemp(prefix='verif-reseed.', dir=os.environ.get('TMPDIR', '/tmp'))
     try:
-        r = subprocess.run(['bin/govc', 'check', prop, 'quick'], capture_output=True, text=True, env=dict(os.environ, VERIF_EVIDENCE_DIR='/verif/out/evidence-scratch'))
+        subprocess.run(['rsync', '-a', '--exclude', '.git', '/repo/', scratch + '/'], check=True)
+        if subprocess.run(['patch', '-p1', '-s', '-d', scratch, '-i', patch], capture_output=True).returncode != 0:
+            return (name, prop, 'patch does not apply any more', '')
+        r = subprocess.run([os.environ.get('GOVC','bin/govc'), 'check', '-repo', scratch, prop, 'quick'], capture_output=True, text=True,
+                           env=dict(os.environ, VERIF_EVIDENCE_DIR=scratch + '/.evidence', VERIF_OUT_DIR=scratch + '/.out'))
     finally:
-        subprocess.run(['git', '-C', '/repo', 'checkout', '--', '.'], check=True)
+        shutil.rmtree(scratch, ignore_errors=True)
     out = [l for l in r.stdout.splitlines() if 'WARNING' not in l]
     viol = [l for l in out if l.startswith('  failed obligation:')]
     detected = 'yes' if r.returncode == 1 else 'no'
@@ -29,9 +31,15 @@ for d in sorted(glob.glob('seeded/*/')):
     meta['detected_by_check'] = detected
     meta['detection_note'] = (f'tools/check.sh {prop}: {len(viol)} failed obligation(s), first: {first}' if viol else 'check passes' + ('; ' + notes[0][:200] if notes else ''))
     json.dump(meta, open(d + 'meta.json', 'w'), indent=1)
-    rows.append((name, prop, detected, first or (notes[0][:120] if notes else '')))
-    print(name, detected, first[:100])
-with open('seeded/RESULTS.md', 'w') as f:
-    f.write('# Seeded changes vs. current checks (tools/reseed.py)\n\n| seed | property | detected | first failing obligation / note |\n|---|---|---|---|\n')
-    for r in rows:
-        f.write('| %s | %s | %s | %s |\n' % r)
+    print(name, detected, first[:100], flush=True)
+    return (name, prop, detected, first or (notes[0][:120] if notes else ''))
+
+dirs = [d for d in sorted(glob.glob('seeded/*/')) if not only or any(o in d for o in only)]
+with ThreadPoolExecutor(WORKERS) as ex:
+    rows = list(ex.map(run, dirs))
+if not only:
+    with open('seeded/RESULTS.md', 'w') as f:
+        f.write('# Seeded changes vs. current checks (tools/reseed.py)\n\n| seed | property | detected | first failing obligation / note |\n|---|---|---|---|\n')
+        for r in rows:
+            f.write('| %s | %s | %s | %s |\n' % r)
+print(sum(1 for r in rows if r[2] == 'yes'), 'of', len(rows), 'detected')
